@@ -1,7 +1,7 @@
 (* C11 — the schemas extracted from the current /repo text all match (closed by computation),
    hence every extracted class / helper pair round-trips for all values. *)
-From Coq Require Import ZArith List String Bool.
-From C11 Require Import Prim Schema Tables ProofsPrim ProofsSchema Json ProofsJson Types ProofsTypes JsonText ProofsJsonText JsonSchema ProofsJsonSchema Fixup ProofsFixup.
+From Coq Require Import ZArith List String Bool Lia.
+From C11 Require Import Prim Schema Tables ProofsPrim ProofsSchema Json ProofsJson Types ProofsTypes JsonText ProofsJsonText JsonSchema ProofsJsonSchema JsonObj ProofsJsonObj Fixup ProofsFixup.
 From Gen Require Import Schemas.
 Import ListNotations.
 Open Scope Z_scope.
@@ -43,6 +43,12 @@ Proof. vm_compute. reflexivity. Qed.
 
 (* every attribute fixup.py assigns / rebuilds is compared by the structural walk of stage S *)
 Lemma fixup_covered : str_subset fixup_assigns walk_coverage = true.
+Proof. vm_compute. reflexivity. Qed.
+
+(* the fixup visitor of every class touches every slot of that class that can hold a TypeInfo / alias reference *)
+Definition ref_row_ok (e : string * (list string * list string * list string)) : bool :=
+  str_subset (fst (fst (snd e))) (snd (fst (snd e)) ++ snd (snd e)).
+Lemma fixup_visits_all : forallb ref_row_ok ref_slots = true.
 Proof. vm_compute. reflexivity. Qed.
 
 Definition jentry_ok (e : string * (op * op * list (list Z * jop))) : bool :=
@@ -91,6 +97,28 @@ Lemma closed_extracted : forall n name w r, In (name, (w, r)) schemas ->
     read_op (OR n) ER r (bs ++ rest) = Some (vs, rest).
 Proof. exact (extracted_rt_closed json_write json_read json_codec_ok). Qed.
 
+(* formats agree on values with the CONCRETE recursive binary codec (all nested objects, Instance fast paths, literal
+   and JSON-value codecs discharged): the only remaining hypothesis is the round trip of the JSON encoding of nested
+   objects (x.serialize() / deserialize_type) *)
+Lemma formats_agree_binary_closed :
+  forall n ne nd, (forall v j, ne v = Some j -> nd j = Some v) ->
+  forall name w r s, In (name, (w, r, s)) json_schemas ->
+  forall vs bs j,
+    write_op (OW n) EW w vs = Some (bs, []) -> fits (obj_wf n) r vs = Some [] -> jser ne s vs = Some j -> jvalid j ->
+    bind (read_op (OR n) ER r bs) (fun x => Some (fst x)) = bind (json_loads (json_dumps j)) (jdeser nd s).
+Proof.
+  intros n ne nd Hn. apply (extracted_formats_agree (OW n) (OR n) EW ER (obj_wf n) ne nd); [|exact (ext_ok json_write json_read json_codec_ok)|exact Hn].
+  exact (closed_obj n).
+Qed.
+
+(* ... and with the concrete recursive JSON object codec (all keyed schema classes + Instance): no hypotheses left *)
+Lemma formats_agree_closed :
+  forall n m name w r s, In (name, (w, r, s)) json_schemas ->
+  forall vs bs j,
+    write_op (OW n) EW w vs = Some (bs, []) -> fits (obj_wf n) r vs = Some [] -> jser (jo_enc m) s vs = Some j -> jvalid j ->
+    bind (read_op (OR n) ER r bs) (fun x => Some (fst x)) = bind (json_loads (json_dumps j)) (jdeser (jo_dec m) s).
+Proof. intros n m. exact (formats_agree_binary_closed n (jo_enc m) (jo_dec m) (jo_codec_ok m)). Qed.
+
 (* injectivity of the whole data-file encoding: equal bytes => equal (abstract) trees *)
 Lemma closed_file_injective : forall n f1 f2 b,
   write_file json_write n f1 = Some b -> write_file json_write n f2 = Some b ->
@@ -113,6 +141,12 @@ Lemma demo_type :
   wf_type 6 t_dict = true /\
   exists bs, write_type json_write 6 t_dict = Some bs /\ read_type json_read 6 (bs ++ [9]) = Some (t_dict, [9]).
 Proof. split; [vm_compute; reflexivity|]. eexists; split; [vm_compute; reflexivity|vm_compute; reflexivity]. Qed.
+
+(* a nested type through the JSON object codec and the JSON text *)
+Lemma demo_json_type : exists j, jo_enc 6 t_dict = Some j /\ jo_dec 6 j = Some t_dict.
+Proof. eexists. split; [vm_compute; reflexivity|vm_compute; reflexivity]. Qed.
+
+
 
 (* a non-trivial instance: CacheMetaEx-like record with an optional str and a huge int *)
 Definition demo_schema : op :=
